@@ -39,6 +39,7 @@ class Case:
         self.ordered, self.final_cols = ordered, final_cols
         self.variants = []      # (stream, label, text, coq list | None)
         self.betas = []         # (label, text, Coq `(beta F C, Some E)`) for function-call rewrites
+        self.walks = []         # (label, rewritten RProg) of module-siblings variants, for the tie with Model/ModuleWalk.v
         self.seen = {base_text}
 
     def add(self, stream, label, text, coq=None, beta=None):
@@ -520,6 +521,96 @@ def engine_stream(ck, cases):
                          {"kind": "engine", "label": label, "base": c.base_text, "rewritten": text, "instance": c.insts[0]})
 
 
+WALK_HEADER = ("From Coq Require Import List NArith.\nFrom PV Require Import Lib.ListX Model.Scope Model.ModuleWalk.\nImport ListNotations.\n")
+
+
+def _cs(x):
+    return "[" + ";".join(str(ord(ch)) for ch in x) + "]%N"
+
+
+def walk_stream(ck, cases, comp):
+    """tie between Model/ModuleWalk.v (on C10's Model/Scope.v) and the compiler, on every module-siblings variant: the model is
+    given the module tree of the rewritten program and says (a) for a let-table referring to a let-table of its own / its parent
+    module: in which module the reference is found (found_at) -- the program must then compile; (b) for a function whose body calls a
+    function of its module, used from the main pipeline: what the name means where the function is CALLED (body_ref .. DFunction) --
+    an inferred column / unknown / ambiguous, which must be the compile error observed."""
+    exprs, meta = [], []
+    for c in cases:
+        for lab, q in c.walks:
+            last = lab.split("+")[-1]
+            kind, names = last.split("@")
+            a_name, b_name = names.split(",")
+            mod = next(d for d in q.decls if isinstance(d, W.Module))
+            root = [("std", "NModule"), ("default_db", "NModule")]
+            mods = []
+
+            def walk_mod(m, path):
+                for d in m.decls:
+                    if isinstance(d, W.Module):
+                        mods.append((path + [d.name], "NModule"))
+                        walk_mod(d, path + [d.name])
+                    else:
+                        mods.append((path + [d.name], "NTable" if isinstance(d, W.LetTable) else "NFunc"))
+            for d in q.decls:
+                if isinstance(d, W.Module):
+                    root.append((d.name, "NModule"))
+                    walk_mod(d, [d.name])
+                else:
+                    root.append((d.name, "NTable" if isinstance(d, W.LetTable) else "NFunc"))
+            b_path = next(pth for pth, _ in mods if pth[-1] == b_name)[:-1]
+            a_path = next(pth for pth, _ in mods if pth[-1] == a_name)[:-1]
+            is_func = any(k == "NFunc" and pth[-1] == b_name for pth, k in mods)
+            coq_mods = "[" + "; ".join("([%s], %s)" % ("; ".join(_cs(x) for x in pth), k) for pth, k in mods) + "]"
+            coq_root = "[" + "; ".join("(%s, %s)" % (_cs(n), k) for n, k in root) + "]"
+            cfg = "(mkCfg true true true true)"
+            if not is_func:
+                sc = "(Scope.mkScope %s (Scope.mkFrame [] []) None [] [])" % coq_root
+                exprs.append("(match found_at %s %s %s [%s] ([], %s) with Some p => (1%%N, p) | None => (0%%N, []) end)"
+                             % (cfg, coq_mods, sc, "; ".join(_cs(x) for x in b_path), _cs(a_name)))
+                meta.append((c, lab, q, "table", a_path))
+            else:
+                # the frame at the call site of the outer function: closed after a select / aggregate / group / distinct, two wildcard
+                # inputs after a join of the bare tables, else the one wildcard table
+                call = "%s.%s" % (".".join(b_path), b_name)
+                k_call = next((i for i, st in enumerate(q.steps) if call in st.prql()), None)
+                if k_call is None:
+                    continue
+                before = [st.kind for st in q.steps[:k_call]] + ([] if q.steps[k_call].kind != "select" else [])
+                closed = any(k in ("select", "aggregate", "group_agg", "distinct") for k in before)
+                joined = "join" in before
+                if closed:
+                    frame = "(Scope.mkFrame [] [%s])" % _cs("a")
+                elif joined:
+                    frame = "(Scope.mkFrame [Scope.mkInput %s [] true; Scope.mkInput %s [] true] [])" % (_cs("t"), _cs("u"))
+                else:
+                    frame = "(Scope.mkFrame [Scope.mkInput %s [] true] [])" % _cs("t")
+                sc = "(Scope.mkScope %s %s None [] [])" % (coq_root, frame)
+                exprs.append("(2%%N, [[N.of_nat (show_resolved (body_ref %s %s %s DFunction [%s] [] ([], %s))); N.of_nat (show_resolved (body_ref %s %s %s DLetTable [%s] [] ([], %s)))]])"
+                             % (cfg, coq_mods, sc, "; ".join(_cs(x) for x in b_path), _cs(a_name), cfg, coq_mods, sc, "; ".join(_cs(x) for x in b_path), _cs(a_name)))
+                meta.append((c, lab, q, "func", None))
+    vals = coq_eval(WALK_HEADER, exprs) if exprs else []
+    for (c, lab, q, what, a_path), v in zip(meta, vals):
+        text = q.prql()
+        a = comp.get((text, "sql.sqlite")) or {}
+        ck.count("walk", text)
+        ck.stat("walk", "kind:" + what + (":parent" if "siblings-parent" in lab else ""))
+        if what == "table":
+            got = ["".join(chr(x) for x in part) for part in v[1]] if v and v[0] == 1 else None
+            if got != a_path or "ok" not in a:
+                ck.violation("module walk: Model/ModuleWalk.found_at says the reference is found in module %s (expected %s) and the compiler %s: %s"
+                             % (got, a_path, "accepts the program" if "ok" in a else "rejects it", text.replace("\n", " | ")[:300]),
+                             {"kind": "walk", "label": lab, "rewritten": text, "model": repr(v), "compile": a if "ok" not in a else "ok"})
+        else:
+            at_call, at_decl = (v[1][0][0], v[1][0][1]) if v else (None, None)
+            reasons = " ".join(str(e.get("reason")) for e in a.get("err", [])) if "ok" not in a else ""
+            obs = 2 if "expected a function" in reasons else 3 if "Unknown name" in reasons else 4 if "Ambiguous name" in reasons else (0 if "ok" in a else 5)
+            ck.stat("walk", "call-site:" + {0: "function", 2: "inferred-column", 3: "unknown", 4: "ambiguous", 5: "other"}.get(obs, "?"))
+            if at_decl != 0 or at_call != obs:
+                ck.violation("module walk: Model/ModuleWalk.body_ref says the sibling call means %s where the function is called (and %s where it is declared); the compiler's outcome is %s: %s"
+                             % (at_call, at_decl, obs, text.replace("\n", " | ")[:300]),
+                             {"kind": "walk", "label": lab, "rewritten": text, "model": repr(v), "compile": a if "ok" not in a else "ok"})
+
+
 BETA_HEADER = R.HEADER + "From PV Require Import Model.Subst.\n"
 
 
@@ -621,7 +712,8 @@ def gen_batch(ck, rng, n_base, n_two, n_dir, site_hist, n_sorted=60, n_known=3):
             if l2:
                 q2 = rng.choice(l2)[1]
                 for lab, q in W.sites_module_siblings(q2, rng):
-                    c.add("module-siblings", "+".join(q.trace), q.prql())
+                    if c.add("module-siblings", "+".join(q.trace), q.prql()):
+                        c.walks.append(("+".join(q.trace), q))
         for lab, q in W.sites_trfunc(rp, rng, variants=[], pointfree=True)[:2]:
             c.add("pointfree", lab, q.prql())
         # a generated function whose body calls a second generated function (both at top level), then both moved into
@@ -632,7 +724,8 @@ def gen_batch(ck, rng, n_base, n_two, n_dir, site_hist, n_sorted=60, n_known=3):
             for lab2, q2 in W.sites_func_nested(q1, rng):
                 c.add("func", lab + "+" + lab2, q2.prql())
                 for lab3, q3 in W.sites_module_siblings(q2, rng):
-                    c.add("module-siblings", "+".join(q3.trace), q3.prql())
+                    if c.add("module-siblings", "+".join(q3.trace), q3.prql()):
+                        c.walks.append(("+".join(q3.trace), q3))
         if c.variants:
             cases.append(c)
 
@@ -837,6 +930,7 @@ def run():
         t3 = time.time()
         engine_stream(ck, cases)
         beta_stream(ck, cases)
+        walk_stream(ck, cases, comp)
         for k, dt in zip(secs, (t1 - t0, t2 - t1, t3 - t2, time.time() - t3)):
             secs[k] = round(secs[k] + dt, 1)
         n_bases += sum(1 for c in cases if c.program.__class__ is P.Program and not c.base_text.count("append (") and "lk_1" not in c.base_text)
